@@ -25,9 +25,12 @@ def main():
         if only and prop not in only and sid not in only:
             continue
         meta = json.load(open(os.path.join(d, "meta.json")))
-        props = [prop] + [p for p in (meta.get("caught_by") or []) if p != prop]
+        cb = meta.get("caught_by") or []
+        if isinstance(cb, str):
+            cb = [x for x in cb.replace(",", " ").split() if x.startswith("C") and len(x) == 3]
+        props = [prop] + [p for p in cb if p != prop]
         if meta.get("not_in_own_quantifier"):
-            props = [p for p in (meta.get("caught_by") or [])] or [prop]
+            props = list(cb) or [prop]
         diff = os.path.join(d, "patch.diff")
         rc, out = sh(f"git -C /repo apply --check {diff}")
         if rc != 0:
